@@ -12,7 +12,7 @@ RULE = (
     "Non-trivial = the handler outcome is not a plain successful return, or neighbours ran concurrently; distinct = distinct cells / distinct mixes of outcome kinds"
 )
 ASSUMPTIONS = ["handlers raising BaseException subclasses (CancelledError, KeyboardInterrupt) are outside 'any other exception'"]
-REQUIRED_MONITORS = {"one_final_response": 500, "code_and_payload": 500, "no_leak": 500, "neighbour_unaffected": 100, "later_request": 16, "no_site": 8, "neighbour_transport_failure": 30}
+REQUIRED_MONITORS = {"one_final_response": 500, "code_and_payload": 500, "no_leak": 500, "neighbour_unaffected": 100, "later_request": 16, "no_site": 8, "neighbour_transport_failure": 30, "same_reaction_alone": 300, "response_usable": 500}
 EXHAUSTIVE = {"outcome_table": "every outcome kind x 7 methods (+1 unassigned method code) x CON/NON x {before, after} the empty ACK"}
 
 METHODS = [1, 2, 3, 4, 5, 6, 7]
@@ -255,6 +255,14 @@ def judge(reqs, res, box, rep, case, table, with_site=True, fault=None):
             rep.violation("final-responses-%d/%s" % (len(finals), key), "a request was answered with %d final responses instead of exactly one" % len(finals), wit(request=repr(q), finals=[e.brief() for e in finals.values()]), case)
             continue
         e = list(finals.values())[0]
+        # answered = by a message a conforming client accepts as the response: a piggy-backed ACK under the
+        # request's own message ID (CON requests only), or a CON/NON message; an ACK under any other message ID
+        # acknowledges nothing and is discarded by its receiver
+        rep.monitor("response_usable")
+        req_mid = 0x100 + (q["serial"] % 0x7000)
+        if e.msg.type == rc.RST or (e.msg.type == rc.ACK and (q["type"] != rc.CON or e.msg.mid != req_mid)):
+            rep.violation("final-response-unusable/%s" % key, "the only response to the request is a %s that does not belong to the request's message exchange (a client discards it): the request is effectively unanswered" % ("Reset" if e.msg.type == rc.RST else "ACK"), wit(request=repr(q), response=e.brief()), case)
+            continue
         rep.monitor("code_and_payload")
         if e.msg.code != exp[0]:
             rep.violation("wrong-code/%s" % key, "the final response carries code %s, the handler outcome calls for %s" % (rc.code_str(e.msg.code), rc.code_str(exp[0])), wit(request=repr(q), response=e.brief()), case)
@@ -276,6 +284,23 @@ def judge(reqs, res, box, rep, case, table, with_site=True, fault=None):
         rep.violation("loop-exception/" + str(res.loop_exceptions[0].get("exc_type")), "an exception reached the event loop", wit(loop=res.loop_exceptions[:2]), case)
     if res.logging_failures:
         rep.violation("logging-call-failed", "a logging call inside the library raised while handling the outcome", wit(failures=res.logging_failures[:2]), case)
+
+
+def reaction_signature(box, q):
+    """what the server sent in reaction to q, without message IDs of fresh messages and without times"""
+    from harness import refcodec as rc
+
+    tok = bytes([0xC0, q["serial"] & 0xFF, (q["serial"] >> 8) & 0xFF])
+    mid = 0x100 + (q["serial"] % 0x7000)
+    dst = box["peers"][q["peer"]]
+    out, seen = [], set()
+    for e in box["net"].log:
+        if e.kind == "send" and e.src == box["S"] and e.dst == dst and e.msg is not None and e.data not in seen:
+            m = e.msg
+            if m.token == tok or (m.mid == mid and m.type in (rc.ACK, rc.RST)):
+                seen.add(e.data)
+                out.append(("CON NON ACK RST".split()[m.type], rc.code_str(m.code), "same-mid" if m.mid == mid else "fresh-mid", m.token.hex(), repr(m.options), m.payload.hex()))
+    return out
 
 
 def run_shard(shard, rep, only=None):
@@ -335,6 +360,22 @@ def run_shard(shard, rep, only=None):
         judge(reqs, res, box, rep, case, table, fault=fault)
         if fault is not None:
             rep.monitor("neighbour_transport_failure")
+        # "a failure in one request affects neither requests in flight nor any later request": every request of the
+        # mix, sent on its own to a fresh server, must draw the same reaction (type, code, token, options, payload,
+        # same/fresh message ID) as it drew inside the mix
+        if res.ok:
+            for q in reqs:
+                if fault is not None and q["peer"] == fault["peer"]:
+                    continue
+                res1, box1 = run_requests([q], shard["seed"] * 104729 + mi, rep, case)
+                if not res1.ok:
+                    continue
+                rep.monitor("same_reaction_alone")
+                a, b = reaction_signature(box, q), reaction_signature(box1, q)
+                if a != b:
+                    nm = names[q["outcome"]] if q["kind"] == "o" else q["kind"]
+                    nm = "raise-renderable" if nm.startswith("raise-renderable-") else nm
+                    rep.violation("reaction-differs-from-solo/%s" % nm, "a request drew another reaction among concurrent / earlier requests than the same request draws on its own", {"request": repr(q), "in_mix": a, "alone": b, "reqs": repr(reqs)[:1500], "wire": box["net"].dump(60)}, case)
         rep.case(("mix", tuple(sorted((names[q["outcome"]] if q["kind"] == "o" else q["kind"]) for q in reqs))), nontrivial=True)
     # ---- context without a site ----
     case = ["nosite"]
